@@ -180,8 +180,9 @@ def scan_statements(files):
     return n, bad, names
 
 
-def proof_side(pid):
-    """Build Properties/<pid>.vo; returns dict(ok, obligations, discharged, checker_cmd, assumptions, log, theorems)."""
+def proof_side(pid, tier="quick"):
+    """Build Properties/<pid>.vo; returns dict(ok, obligations, discharged, checker_cmd, assumptions, log, theorems).
+    In the thorough tier the compiled property file and everything it depends on is re-checked with coqchk."""
     vfile = "theories/Properties/%s.v" % pid
     res = dict(ok=False, obligations=0, discharged=0, checker_cmd="", assumptions=[], log="", theorems=[], broken="")
     if not os.path.exists(os.path.join(COQ, vfile)):
@@ -223,6 +224,18 @@ def proof_side(pid):
         res["broken"] = vfile
         return res
     res["assumptions"] = [l for l in re.sub(r"\s+\n", "\n", out2).strip().split("\n") if l.strip()][:80]
+    if tier == "thorough":
+        # independent re-check of the .vo files of the property and its whole dependency closure
+        chk = ["coqchk", "-silent", "-o", "-Q", "theories", "GoSST", "-Q", "gen", "GoSSTGen", "GoSST.Properties.%s" % pid]
+        with Lock("coq"):
+            rc, out3, _ = run(chk, cwd=COQ, timeout=3600)
+        summary = out3[out3.find("CONTEXT SUMMARY"):] if "CONTEXT SUMMARY" in out3 else out3[-1500:]
+        res["coqchk"] = [l.strip() for l in summary.split("\n") if l.strip()][:20]
+        res["checker_cmd"] += " && " + " ".join(chk)
+        if rc != 0 or "* Axioms: <none>" not in re.sub(r"\s+", " ", out3):
+            res["log"] += "\ncoqchk: " + out3[-2000:]
+            res["broken"] = "coqchk GoSST.Properties.%s" % pid
+            return res
     res["ok"] = True
     res["discharged"] = n
     return res
@@ -327,7 +340,7 @@ def check(pid, tier, seed):
     if not fok:
         notes.append("factgen failed: " + fout[-500:])
 
-    proof = proof_side(pid)
+    proof = proof_side(pid, tier)
     rok, rout = build_runner()
 
     work = scratch_dir(pid)
@@ -418,7 +431,8 @@ def check(pid, tier, seed):
     cov = dict(
         obligations=max(proof["obligations"], 1), discharged=proof["discharged"],
         checker_cmd=proof["checker_cmd"] or "make (not run)",
-        trusted_base=TRUSTED_COMMON + cfg.get("trusted", []) + ["Print Assumptions: " + " | ".join(proof["assumptions"])],
+        trusted_base=TRUSTED_COMMON + cfg.get("trusted", []) + ["Print Assumptions: " + " | ".join(proof["assumptions"])]
+        + (["coqchk -o: " + " | ".join(proof["coqchk"])] if proof.get("coqchk") else []),
         theorems=proof["theorems"],
         evaluations=summary["evaluations"], cases=summary.get("cases", summary["evaluations"]), distinct_nontrivial=summary["distinct_nontrivial"],
         rule=cfg.get("rule", "") or summary.get("rule", ""),
